@@ -461,8 +461,151 @@ pub fn run_script(path: &str, out: &str) -> bool {
     true
 }
 
+/// Runs every thread that is enabled (never `frozen`; the sweeper only while it is in the middle of a sweep) until nothing
+/// more can move. Threads are taken in a fixed order: the point of the race templates is the ONE chosen pre-emption.
+fn settle(world: &mut World, sink: &mut Sink, frozen: Option<&str>) -> Result<(), String> {
+    for _ in 0..400 {
+        crate::beat(None);
+        let mut roles: Vec<String> = (0..world.cfg.clients).map(|c| format!("c{}", c)).collect();
+        roles.push("worker".to_string());
+        roles.push("consumer".to_string());
+        if World::at("sweeper") != "sweep.begin" { roles.push("sweeper".to_string()); }
+        let next = roles.into_iter().find(|role| Some(role.as_str()) != frozen && world.enabled(role));
+        match next { Some(role) => perform(world, &Choice::Role(role), sink)?, None => return Ok(()) }
+    }
+    Ok(())
+}
+
+/// One request of the race alphabet on `key`.
+fn race_request(rng: &mut Rng, key: u64, value: u64, max: i64, reads: bool) -> Req {
+    let ttl = rng.pick(&[1_000_000_000u128, 1_000_000_000, 2_000_000_000, 3_000_000_000, 1]);
+    let weight = rng.pick(&[1i64, 2, 3, 3, max / 2 + 1, max]);
+    match rng.below(if reads { 16 } else { 12 }) {
+        0 | 1 => Req::PutW(key, value, weight, None),
+        2 | 3 => Req::PutW(key, value, weight, Some(ttl)),
+        4 | 5 => Req::Delete(key),
+        6 => Req::Upsert(key, Some(value), None, None, false),
+        7 => Req::Upsert(key, Some(value), Some(weight), None, false),
+        8 | 9 => Req::Upsert(key, Some(value).filter(|_| rng.chance(30)), None, Some(ttl), false),
+        10 => Req::Upsert(key, Some(value).filter(|_| rng.chance(30)), None, None, true),
+        11 => Req::Upsert(key, None, Some(weight), Some(ttl).filter(|_| rng.chance(50)), false),
+        12 => Req::Get(key),
+        13 => Req::GetRef(key),
+        14 => { let variant = rng.below(3) as u8; Req::MGet(if variant == 0 { vec![key, 1 - key.min(1)] } else { vec![key, 1 - key.min(1), key] }, variant) }   // the map-returning variant gets distinct keys
+        _ => Req::Weight,
+    }
+}
+
+/// Directed race templates (`--profile race`): the random scheduler above reaches a long race — one thread held in the
+/// middle of its programme while SEVERAL complete calls on the same key go by — only rarely. Here every case is built
+/// around one such window: a short set-up on a hot key, one victim thread (the sweeper inside an eviction, the worker
+/// inside a command, a client inside a call) advanced to a chosen position and frozen, one to three complete calls of other
+/// clients (mostly on the hot key) with everything else running to completion, then the victim released, a sweep, and reads.
+pub fn run_race(seed: u64, out: &str, args: &[String]) -> bool {
+    let cases: u64 = args.iter().position(|a| a == "--cases").and_then(|i| args.get(i + 1)).and_then(|s| s.parse().ok()).unwrap_or(10);
+    let mut sink = Sink::new(out);
+    for case in 0..cases {
+        let case_seed = seed.wrapping_mul(1_000_003).wrapping_add(case);
+        let mut rng = Rng::new(case_seed ^ 0xACE);
+        let max = rng.pick(&[6i64, 10, 10, 20]);
+        let cfg = Cfg { max, shards: rng.pick(&[2usize, 2, 4]), cmdcap: rng.pick(&[2usize, 4, 64]), pool: 1, buf: rng.pick(&[1usize, 2]), counters: 10, hash: 0, wbase: 1, wmod: 1,
+            now: rng.pick(&[1_000u64 * 1_000_000_000, 1_000 * 1_000_000_000 + 999_999_999]), clients: 3 };
+        sink.both(&format!("# case race seed={}", case_seed));
+        let mut world = match World::new(cfg.clone(), true) { Ok(world) => world, Err(why) => { sink.both(&format!("# engine-start-failed {}", why)); sink.flush(); return false; } };
+        writeln!(sink.input, "{}", world.cfg_line()).unwrap();
+        writeln!(sink.implementation, "R init | {} | {}", world.pcs(), world.snapshot()).unwrap();
+        let mut value = 100u64;
+        let hot = 0u64;
+        let result: Result<(), String> = (|| {
+            // 1. set-up: complete calls on the hot key (and sometimes a neighbour), then perhaps the clock past a deadline
+            for _ in 0..rng.below(4) {
+                value += 1;
+                let key = if rng.chance(85) { hot } else { 1 };
+                let req = race_request(&mut rng, key, value, max, false);
+                perform(&mut world, &Choice::Issue(1, req), &mut sink)?;
+                settle(&mut world, &mut sink, None)?;
+            }
+            if rng.chance(60) { perform(&mut world, &Choice::Advance(rng.pick(&[1u64, 1_000_000_000, 1_000_000_001, 2_000_000_001, 3_000_000_001])), &mut sink)?; }
+            // 2. the victim, advanced into its programme and frozen there
+            let victim = rng.pick(&["sweeper", "sweeper", "worker", "worker", "c0"]).to_string();
+            let depth = 1 + rng.below(8);
+            match victim.as_str() {
+                "sweeper" => {
+                    for _ in 0..depth {
+                        if !world.enabled("sweeper") { break; }
+                        perform(&mut world, &Choice::Role("sweeper".to_string()), &mut sink)?;
+                        if World::at("sweeper") == "sweep.begin" { break; }
+                    }
+                }
+                "worker" => {
+                    value += 1;
+                    let req = race_request(&mut rng, hot, value, max, false);
+                    perform(&mut world, &Choice::Issue(0, req), &mut sink)?;
+                    settle(&mut world, &mut sink, Some("worker"))?;
+                    for _ in 0..depth {
+                        if !world.enabled("worker") { break; }
+                        perform(&mut world, &Choice::Role("worker".to_string()), &mut sink)?;
+                        if World::at("worker") == "worker.recv" { break; }
+                    }
+                }
+                _ => {
+                    value += 1;
+                    let req = race_request(&mut rng, hot, value, max, true);
+                    perform(&mut world, &Choice::Issue(0, req), &mut sink)?;
+                    for _ in 0..depth {
+                        if !world.enabled("c0") { break; }
+                        perform(&mut world, &Choice::Role("c0".to_string()), &mut sink)?;
+                        if World::at("c0") == "client.idle" { break; }
+                    }
+                }
+            }
+            // 3. complete calls of the other clients while the victim stands still
+            for round in 0..(1 + rng.below(3)) {
+                let client = 1 + (round as usize % 2);
+                if world.pending_job[client] || World::at(&format!("c{}", client)) != "client.idle" { continue; }
+                value += 1;
+                let key = if rng.chance(85) { hot } else { 1 };
+                let req = race_request(&mut rng, key, value, max, true);
+                perform(&mut world, &Choice::Issue(client, req), &mut sink)?;
+                settle(&mut world, &mut sink, Some(victim.as_str()))?;
+                if rng.chance(15) { perform(&mut world, &Choice::Advance(rng.pick(&[1u64, 1_000_000_000, 2_000_000_001])), &mut sink)?; }
+                if victim != "sweeper" && rng.chance(15) && world.enabled("sweeper") {
+                    perform(&mut world, &Choice::Role("sweeper".to_string()), &mut sink)?;
+                    settle(&mut world, &mut sink, Some(victim.as_str()))?;
+                }
+            }
+            // 4. the victim is released; everything runs out; one sweep per shard of the next seconds
+            settle(&mut world, &mut sink, None)?;
+            for _ in 0..rng.below(3) {
+                perform(&mut world, &Choice::Advance(1_000_000_000), &mut sink)?;
+                if world.enabled("sweeper") { perform(&mut world, &Choice::Role("sweeper".to_string()), &mut sink)?; }
+                settle(&mut world, &mut sink, None)?;
+            }
+            // 5. what a caller sees afterwards
+            for req in [Req::Get(hot), Req::Get(1), Req::Weight] {
+                if world.pending_job[1] || World::at("c1") != "client.idle" { break; }
+                perform(&mut world, &Choice::Issue(1, req), &mut sink)?;
+                settle(&mut world, &mut sink, None)?;
+            }
+            Ok(())
+        })();
+        sink.flush();
+        if let Err(why) = result {
+            sink.both(&format!("# hang {}", why.replace(' ', "_")));
+            sink.flush();
+            std::process::exit(3);
+        }
+        let panics: Vec<String> = std::mem::take(&mut *crate::PANIC_LOG.lock().unwrap());
+        for panic in panics { sink.both(&format!("# panic {}", panic)); }
+        if let Err(why) = world.finish() { sink.both(&format!("# hang at-finish {}", why.replace(' ', "_"))); sink.flush(); std::process::exit(3); }
+    }
+    sink.flush();
+    true
+}
+
 pub fn run(seed: u64, out: &str, args: &[String]) -> bool {
     let extended = args.iter().any(|a| a == "--ext");
+    if args.iter().position(|a| a == "--profile").and_then(|i| args.get(i + 1)).map(|p| p == "race").unwrap_or(false) { return run_race(seed, out, args); }
     let cases: u64 = args.iter().position(|a| a == "--cases").and_then(|i| args.get(i + 1)).and_then(|s| s.parse().ok()).unwrap_or(10);
     let mut sink = Sink::new(out);
     for case in 0..cases {
